@@ -123,6 +123,16 @@ func (r *jeRun) key(id int) string {
 	return jeKeyPool[r.rng.Intn(len(jeKeyPool))]
 }
 
+func init() {
+	// long plain strings whose only special byte sits in the last len%8 bytes (block-wise fast paths)
+	for k := 1; k <= 7; k++ {
+		for _, sp := range []string{"\n", `"`, `\`, "\x01", "\xff"} {
+			jeStrPool = append(jeStrPool, strings.Repeat("p", 63+k-len(sp)+1)+sp)
+		}
+	}
+	jeStrPool = append(jeStrPool, strings.Repeat("q", 64)+"\t", strings.Repeat("r", 127)+"\r", strings.Repeat("s", 4095)+`"`)
+}
+
 var jeStrPool = []string{"", "plain", `quo"te`, `back\slash`, "line\nbreak", "cr\rlf\n", "tab\t", "\x00\x01\x1f", "\x7f", "\u2028\u2029", "bad\xff\xfe", "trunc\xe2\x82", "\xc0\xaf", "\xed\xa0\x80", "emoji😀", "<a&b>", "{\"json\":1}", strings.Repeat("x", 10000), strings.Repeat("é", 700) + "\n", "ends with backslash\\", "  "}
 
 func chkStr(want string) func([]byte) string {
@@ -1002,6 +1012,9 @@ func replayJSONMode(b jeBeh, seed int64, hostile bool, console bool) (out []jeFi
 		}
 		if err := strictJSONObjectLine(line, w.ending); err != nil {
 			add("C01", "C01/invalid-json", "%s output is not one valid JSON object + line ending: %v; line=%q", path, err, trunc(string(line)))
+			if !faulty {
+				add("C02", "C02/undecodable", "%s output cannot be decoded, so the logged values are not recoverable: %v; line=%q", path, err, trunc(string(line)))
+			}
 			if faulty {
 				add("C10", "C10/invalid-json", "%s output is not one valid JSON object + line ending: %v; line=%q", path, err, trunc(string(line)))
 			}
